@@ -111,15 +111,6 @@ def classifyKv (c : Ctx) (s : State) (cmd : List Bytes) : Option String :=
     | _, _ => none
   else none
 
-/-- classes of the memory-accounting property (C19): where `memUsed` stops being a function of the dataset -/
-def classifyMem (c : Ctx) (s : State) (cmd : List Bytes) : Option String :=
-  let n := cmdName cmd
-  let present (k : Bytes) : Bool := (s.lookup c.db k).isSome
-  if n == b "flushdb" || n == b "flushall" then some "flush-leaves-counter"
-  else if (keyArgs cmd).any present then some "rewrite-of-existing-key-not-reaccounted"
-  else if (n == b "lpush" || n == b "rpush") then some "list-create-counted-twice"
-  else none
-
 end Sugar.Known
 
 namespace Sugar.Known
@@ -213,8 +204,27 @@ def classifyColl (c : Ctx) (s : State) (cmd : List Bytes) : Option String :=
       | _, _ => false) then some "srandmember-negative-count-capped"
   else none
 
+/-- classes of the purity / no-aliasing property (C13) -/
+def classifyPure (c : Ctx) (s : State) (cmd : List Bytes) : Option String :=
+  let n := cmdName cmd
+  if (keyArgsColl cmd).any (fun k => match liveVal c s k with | some v => v.oid != 0 | none => false) then some "set-object-shared-between-keys"
+  else if n == b "sunion" && (cmd.drop 1).eraseDups.length ≥ 2 then some "sunion-mutates-operand"
+  else if n == b "sunionstore" then some "sunionstore-destination-aliases-source"
+  else if n == b "sinterstore" && (cmd.drop 2).eraseDups.length == 1 then some "sinterstore-single-key-aliases-source"
+  else none
+
 /-- classification over every specified command -/
 def classifyAll (c : Ctx) (s : State) (cmd : List Bytes) : Option String :=
   (classifyKv c s cmd).orElse fun _ => classifyColl c s cmd
+
+/-- classes of the memory-accounting property (C19): where `memUsed` stops being a function of the dataset -/
+def classifyMem (c : Ctx) (s : State) (cmd : List Bytes) : Option String :=
+  let n := cmdName cmd
+  let present (k : Bytes) : Bool := (s.lookup c.db k).isSome
+  if n == b "flushdb" || n == b "flushall" then some "flush-leaves-counter"
+  else if (keyArgs cmd).any present || (keyArgsColl cmd).any present then some "rewrite-of-existing-key-not-reaccounted"
+  else if (n == b "lpush" || n == b "rpush") then some "list-create-counted-twice"
+  else none
+
 
 end Sugar.Known
